@@ -2,6 +2,7 @@ CFG = dict(
     lean_modules=["SaramaVerif.Model.IdemBroker", "SaramaVerif.Model.Producer", "SaramaVerif.Props.C01", "SaramaVerif.Props.C05", "SaramaVerif.Props.C05stamps",
                   "SaramaVerif.Model.BrokerProd", "SaramaVerif.Model.BrokerProdIdem", "SaramaVerif.Props.C05bp"],
     lean_support=["SaramaVerif.Driver.ProducerTrace"],
+    confirm_scenario_diffs=True,
     model="C05",
     overlay=["sim", "c05"],
     required_theorems=["Props.C05stamps.stamps_never_repeat", "Props.C05stamps.bump_only_for_failed_sequenced_message", "Props.C05stamps.stamps_dense", "Props.C05stamps.step_sinv", "Props.C05.arrive_inv", "Props.C05.arriveAll_inv", "Props.C05.no_two_records_share_stamp",
